@@ -26,6 +26,12 @@ func (d *driver) runOtherFamily(fam, in string, sh *shards) bool {
 			d.runTranscriptProgram(sh.at(shard), k, line)
 		})
 		return true
+	case "purity":
+		getConf()
+		forEachLine(in, 1, func(shard, k int, line []byte) {
+			d.runPurityProgram(sh.at(k), k, line)
+		})
+		return true
 	case "proof":
 		cfg := getConf()
 		first := make([]bool, len(sh.ws))
